@@ -133,6 +133,39 @@ func vecs(vs [][3]float64) []vector3.Float64 {
 type octStats struct {
 	n, nodes, depth                                   int
 	nanSkipped, noiseSkipped, hypBroken, ties, leafGt int
+	elemTied                                          int
+}
+
+// elemCoq renders element i's corners, the query and Go's ClosestPoint (x4, exact) for QElem; only
+// segments and triangles of non-zero area.
+func elemCoq(d setDesc, i int, p, got vector3.Float64) (string, bool) {
+	corner := func(k int) vector3.Float64 { return v3(d.Verts[d.Idx[k]]) }
+	var kind int
+	var a, b, c vector3.Float64
+	switch d.Kind {
+	case "line":
+		if i+1 >= len(d.Idx) {
+			return "", false
+		}
+		kind, a, b, c = 1, corner(i), corner(i+1), corner(i)
+	case "tri":
+		if 3*i+2 >= len(d.Idx) {
+			return "", false
+		}
+		kind, a, b, c = 2, corner(3*i), corner(3*i+1), corner(3*i+2)
+		if b.Sub(a).Cross(c.Sub(a)).LengthSquared() == 0 { // integer corners: exact
+			return "", false
+		}
+	default:
+		return "", false
+	}
+	for _, x := range []float64{got.X(), got.Y(), got.Z()} {
+		if math.IsNaN(x) || math.IsInf(x, 0) {
+			return "", false
+		}
+	}
+	return fmt.Sprintf("QElem %d%%nat %s %s %s %s (%s,%s,%s)", kind, ptCoq(a), ptCoq(b), ptCoq(c), ptCoq(p),
+		dyCoq(4*got.X()), dyCoq(4*got.Y()), dyCoq(4*got.Z())), true
 }
 
 func buildSet(d setDesc) (els []trees.Element, tree *trees.OctTree) {
@@ -221,6 +254,9 @@ func octCase(d setDesc) (c hx.Case, st octStats) {
 			} else if re, ok := rec.(runtime.Error); ok {
 				c.GoFail = "crash: " + re.Error()
 				c.FailKey = "crash"
+				if d.Kind == "line" && len(d.Idx) == 0 {
+					c.FailKey = "oct:index-less-line-strip-panics"
+				}
 			} else {
 				c.GoFail = fmt.Sprintf("panic: %v", rec)
 				c.FailKey = "panic"
@@ -369,6 +405,19 @@ func octCase(d setDesc) (c hx.Case, st octStats) {
 				}
 				qs = append(qs, fmt.Sprintf("QClosest %s %d%%N [%s]%%Z [%s] %s %s", ptCoq(p), K-4,
 					strings.Join(keys, ";"), strings.Join(ps, ";"), hx.CoqZ(int64(ridx)), fptCoq(rpt)))
+				// a few elements' own ClosestPoint(p) next to their corners: the exact rational models of
+				// Line3D.ClosestPointOnLine / scopedTri.ClosestPoint must give the same point (QElem)
+				seen := map[int]bool{}
+				for _, i := range []int{ridx, 0, n - 1, n / 2} {
+					if i < 0 || i >= n || seen[i] || len(seen) >= 3 {
+						continue
+					}
+					seen[i] = true
+					if eq, ok := elemCoq(d, i, p, pts[i]); ok {
+						qs = append(qs, eq)
+						st.elemTied++
+					}
+				}
 			}
 		}
 	}
@@ -605,6 +654,10 @@ func main() {
 	// over spheres misses hits the exhaustive scan finds (fixes/c16-sphere-bounding-box); the cases on which
 	// that shows carry FailKey bvh:sphere-box-half-size.
 	rawSphere := flag.Bool("rawsphere", false, "generate BVHs over spheres with rendering.Sphere's own bounding box")
+	// -emptystrip: also build the tree of a line strip without indices (PrimitiveCount() = -1: on the pinned
+	// code Mesh.OctTree… panics in make([]Element, -1); fixes/c16-empty-line-strip-octree; FailKey
+	// oct:index-less-line-strip-panics)
+	emptyStrip := flag.Bool("emptystrip", false, "generate the line strip without indices")
 	run := hx.ParseFlags("C16", "Check.C16")
 	if run.Tier == "thorough" {
 		run.ShardMax = 48 // smaller shards: the big sets make a shard's coqc process heavy
@@ -617,6 +670,7 @@ func main() {
 		tot.noiseSkipped += st.noiseSkipped
 		tot.hypBroken += st.hypBroken
 		tot.ties += st.ties
+		tot.elemTied += st.elemTied
 		run.Count(fmt.Sprintf("oct:elements<=%d", bucket(st.n)))
 		run.Count(fmt.Sprintf("oct:tree-depth=%d", st.depth))
 		if d.Depth < 0 {
@@ -693,6 +747,13 @@ func main() {
 	for _, d := range fixedBvh() {
 		addBvh(d)
 	}
+	if *emptyStrip {
+		for _, depth := range []int{-1, 0, 2} {
+			for _, atr := range []string{"", "Rest"} {
+				addOct(setDesc{Kind: "line", Verts: [][3]float64{}, Idx: []int{}, Depth: depth, Attr: atr})
+			}
+		}
+	}
 	if *rawSphere { // the reproducer of fixes/c16-sphere-bounding-box
 		for seed := int64(1); seed <= 2; seed++ {
 			addBvh(bvhDesc{Spheres: []sphDesc{{C0: [3]float64{0, 0, 10}, C1: [3]float64{0, 0, 10}, R: 2}, {C0: [3]float64{20, 0, 10}, C1: [3]float64{20, 0, 10}, R: 2}},
@@ -729,6 +790,7 @@ func main() {
 	run.Dist["closest:skipped-float-noise"] = tot.noiseSkipped
 	run.Dist["closest:element-point-outside-own-box"] = tot.hypBroken
 	run.Dist["closest:ties"] = tot.ties
+	run.Dist["closest:element-points-compared-with-exact-model"] = tot.elemTied
 	run.Finish()
 }
 
